@@ -8,6 +8,7 @@ CONSTANTS
   Toggles = TRUE
   DefaultMax = 100
   LegacyPullZero = FALSE
+  LegacyTrimRaw = FALSE
   GenDepth = 0
   Cover = FALSE
 CHECK_DEADLOCK FALSE
